@@ -28,6 +28,36 @@ contract(F, "_dedup", props=["C15"], params={"inp": "sym"},
          notes=["py_eq is assumed reflexive and symmetric (an equivalence is not needed for these clauses)"],
          cover=["returned"])
 
+# `_dedup` under a second, separate contract: the result keeps the order of FIRST occurrences (it is a subsequence of the input), and
+# an input without duplicates comes back element by element.  (C15: the member order of a canonical form does not depend on how often a
+# member was repeated.)
+def _dedup_scenarios(mod):
+    out = []
+    for inp in [[], [1, 2, 3], [3, 1, 3, 2, 1], ["a", "a"], [(int, 1), (bool, True), (int, 1)], [2, 1]]:
+        def factory(inp=inp):
+            return mod._dedup, {"inp": list(inp)}, {}
+        out.append((repr(inp), factory))
+    return out
+
+
+contract(F, "_dedup", name=F + ":_dedup[order]", props=["C15"], params={"inp": "sym"}, scenarios=_dedup_scenarios,
+         post={
+             "subsequence": ("implies(returned, forall(lambda k1, k2: implies(0 <= k1 and k1 < k2 and k2 < len(result), "
+                             "exists(lambda i1, i2: 0 <= i1 and i1 < i2 and i2 < len(inp) and result[k1] is inp[i1] and result[k2] is inp[i2]))))"),
+             "no-duplicates-identity": ("implies(returned and forall(lambda i1, i2: implies(0 <= i1 and i1 < i2 and i2 < len(inp), not py_eq(inp[i1], inp[i2]))), "
+                                        "len(result) == len(inp) and forall(lambda k: implies(0 <= k and k < len(inp), result[k] is inp[k])))"),
+         },
+         loops={0: LoopSpec(inv=[
+             "len(in_set) == len(result)",
+             "forall(lambda k: implies(0 <= k and k < len(result), in_set[k] is result[k]))",
+             "forall(lambda k: implies(0 <= k and k < len(result), exists(lambda i: 0 <= i and i < _i and result[k] is inp[i])))",
+             "forall(lambda k1, k2: implies(0 <= k1 and k1 < k2 and k2 < len(result), "
+             "exists(lambda i1, i2: 0 <= i1 and i1 < i2 and i2 < _i and result[k1] is inp[i1] and result[k2] is inp[i2])))",
+             "exists(lambda i1, i2: 0 <= i1 and i1 < i2 and i2 < _i and py_eq(inp[i1], inp[i2])) or (len(result) == _i and "
+             "forall(lambda k: implies(0 <= k and k < _i, result[k] is inp[k])))",
+         ])},
+         notes=["py_eq is assumed reflexive and symmetric"], cover=["returned"])
+
 
 # ---- Union normalisation, step 1: nested unions are unfolded in place, nothing else is touched, order is kept ----------------------
 # (C15: "union members ... nested": Union[Union[A, B], C] and Union[A, B, C] get the same member list)
